@@ -223,6 +223,58 @@ def partial(t, s, env):
     raise Unsupported("partial derivative of %s" % k)
 
 
+def substitute_term(t, variables, values):
+    """t with every occurrence of a symbol of `variables` replaced by the matching value, simultaneously (ca.substitute)"""
+    if not isinstance(t, E):
+        return t
+    if t.kind == "sym":
+        for v, val in zip(variables, values):
+            if v is t:
+                return val if isinstance(val, E) else const(_val(val))
+        return t
+    if t.kind in ("const", "opaque"):
+        return t
+    if t.kind == "chain":
+        expr, deps, ders = t.deps
+        if any(any(v is d for d in deps) for v in variables):
+            raise Unsupported("substitution of a symbol the derivative was taken with respect to")
+        return E("chain", substitute_term(expr, variables, values), deps, tuple(substitute_term(d, variables, values) for d in ders))
+    new = [substitute_term(d, variables, values) for d in t.deps]
+    if all(a is b for a, b in zip(new, t.deps)):
+        return t
+    return E(t.kind, *new, name=t.nm, value=t.value)
+
+
+def same_term(a, b):
+    """structural equality (ca.is_equal with unlimited depth)"""
+    if a is b:
+        return True
+    if isinstance(a, VecT) and isinstance(b, VecT):
+        return len(a.items) == len(b.items) and all(same_term(x, y) for x, y in zip(a.items, b.items))
+    if not (isinstance(a, E) and isinstance(b, E)) or a.kind != b.kind:
+        return False
+    if a.kind == "sym":
+        return False
+    if a.kind in ("const", "opaque"):
+        return z3.is_true(z3.simplify(a.value == b.value)) if ops.is_sym(a.value) or ops.is_sym(b.value) else a.value == b.value
+    if a.kind == "chain":
+        return False
+    return len(a.deps) == len(b.deps) and all(same_term(x, y) for x, y in zip(a.deps, b.deps))
+
+
+def substitution_functions(log=None):
+    """ca.substitute / ca.is_equal / ca.veccat with their meaning on the term algebra; every substitute call is logged"""
+    def substitute(eng, exprs, variables, values):
+        vs, vals = list(eng.iterate(variables)), list(eng.iterate(values))
+        single = isinstance(exprs, E)
+        items = [exprs] if single else list(eng.iterate(exprs))
+        out = [substitute_term(x, vs, vals) for x in items]
+        if log is not None:
+            log.append((exprs, vs, vals, out))
+        return out[0] if single else VList(out)
+    return {"substitute": stub(substitute), "is_equal": stub(lambda eng, a, b, *depth: same_term(a, b)), "veccat": stub(lambda eng, *a: VecT(a))}
+
+
 class VecT(Ext):
     """ca.vertcat(*terms): a column of scalar terms"""
     type_names = ("MX",)
